@@ -165,7 +165,8 @@ def decStep (j : Json) : Except String Step := do
   return ⟨← asNat (← field j "case"), ← asBool (j.getD "stopBefore" (.bool false)), ← decCall (← field j "call")⟩
 
 def decScenario (j : Json) : Except String Scenario := do
-  return ⟨← asBool (j.getD "setupFails" (.bool false)), ← asList decStep (← field j "steps")⟩
+  return ⟨← asBool (j.getD "setupFails" (.bool false)), ← asList decStep (← field j "steps"),
+          ← asBool (j.getD "teardownFails" (.bool false))⟩
 
 def decHyp (j : Json) : Except String HypEnd := do
   match j with
@@ -217,8 +218,9 @@ def applyOps : MSt → List Json → Except String (MSt × List Json)
       let (m', outs) ← applyOps r.1 rest
       return (m', encRes r.2 :: outs)
     | "teardown" =>
-      let (m', outs) ← applyOps (teardown m) rest
-      return (m', Json.null :: outs)
+      let fails ← asBool (j.getD "fails" (.bool false))
+      let (m', outs) ← applyOps (if fails then teardownFailing m else teardown m) rest
+      return (m', (if fails then Json.str "raised" else Json.null) :: outs)
     | o => .error s!"bad machine op {o}"
 
 end SMD
